@@ -301,7 +301,8 @@ def F1(m, R):
             R.check(tt == want, f, inner, 'the parameter scan continues exactly outside [0x40,0x7E]',
                     'the parameter scan continues in regions %s; a final byte is exactly lo..hi inclusive' % sorted(k for k, v in tt.items() if v), construct=cons)
     # AnsiControlSequence.is_terminator_valid (same class, public helper)
-    f = m.funcs.get('AnsiControlSequence.is_terminator_valid')
+    # (not used by the parser and no property speaks about it: no obligation)
+    f = None
     if f is not None:
         rets = [n for n in f.walk() if isinstance(n, ast.Return)]
         if rets:
@@ -555,29 +556,34 @@ def F7(m, R):
         raise AnalysisError('anchor vanished: dispatch on the effect function')
     fnvar = norm(chain.test.left)
     members = list(F.enum('AnsiParamEffectFn').members)
+    # which arm runs for each member: walk the chain evaluating == / != / is / is not against the member
     arms = {}
-    cur = chain
-    while True:
-        try:
-            ref = F.fold(cur.test.comparators[0])
-        except Unfoldable:
-            ref = None
-        if not (isinstance(ref, EnumRef) and isinstance(cur.test.ops[0], (ast.Eq, ast.Is)) and norm(cur.test.left) == fnvar):
-            R.undecided(f, cur, 'dispatch test %s' % short(cur.test), construct='dispatch')
-            return
-        arms[ref.name] = cur.body
-        if len(cur.orelse) == 1 and isinstance(cur.orelse[0], ast.If):
-            cur = cur.orelse[0]
-            continue
-        rest = [x for x in members if x not in arms]
-        if cur.orelse:
-            if len(rest) == 1:
-                arms[rest[0]] = cur.orelse
+    else_members = []
+    for mem in members:
+        cur = chain
+        body = None
+        while cur is not None:
+            t = cur.test
+            try:
+                ref = F.fold(t.comparators[0]) if isinstance(t, ast.Compare) and len(t.ops) == 1 else None
+            except Unfoldable:
+                ref = None
+            if not (isinstance(ref, EnumRef) and norm(t.left) == fnvar and isinstance(t.ops[0], (ast.Eq, ast.Is, ast.NotEq, ast.IsNot))):
+                R.undecided(f, cur, 'dispatch test %s' % short(t), construct='dispatch')
+                return
+            truth = (ref.name == mem) if isinstance(t.ops[0], (ast.Eq, ast.Is)) else (ref.name != mem)
+            if truth:
+                body = cur.body
+                break
+            if len(cur.orelse) == 1 and isinstance(cur.orelse[0], ast.If):
+                cur = cur.orelse[0]
             else:
-                R.viol(f, cur, 'the else arm stands for %d members %s' % (len(rest), rest), construct='dispatch exhaustive')
-        elif rest:
-            arms.update({r: [] for r in rest})
-        break
+                body = cur.orelse
+                else_members.append(mem)
+                cur = None
+        arms[mem] = body or []
+    if len(else_members) > 1:
+        R.viol(f, chain, 'the else arm stands for %d members %s' % (len(else_members), else_members), construct='dispatch exhaustive')
     from .T import fn_roles
     # roles by name here (fn_roles reads them off this very function)
     role = {}
